@@ -146,7 +146,9 @@ def rule_keys(dm):
             # name-carrying kinds: the String parameter goes into the key unchanged
             for bb, i, pl, rv in b.assigns():
                 if rv['k'] == 'agg' and rv['agg'] == 'adt' and rv['adt'] == dm.K and rv['variant'] == kv and rv['ops']:
-                    o = single_origin(trace_operand(b, rv['ops'][0]))
+                    # `name.to_string()` / `to_owned()` / `String::from(name)` / `into()` copy the text unchanged
+                    o = single_origin(trace_operand(b, rv['ops'][0], through_calls=set(TRANSPARENT_CALLS) | {
+                        'std::string::ToString::to_string', 'std::borrow::ToOwned::to_owned', 'std::convert::From::from', 'std::convert::Into::into', 'std::clone::Clone::clone'}))
                     k2 = 'TDESC|keyname|%s|%s' % (b.name, kv)
                     if o is not None and o.kind == 'param' and not o.proj:
                         obs.append(ok('TDESC', k2, 'the name in the key is parameter %d, unchanged' % o.data, b.where(bb)))
@@ -258,7 +260,8 @@ def rule_dispatch(dm, getters):
     v = prog.view(ds[0], keep=lambda g: g.is_pub or bool(g.impl_trait), tag='describe')
     if v is not ds[0]:
         second = _rule_dispatch(dm, getters, v)
-        if not any(o.status == 'violated' for o in second):
+        from engine import covers
+        if covers([o for o in first if '|dispatch|bb' not in o.key], second) and not any(o.status == 'violated' for o in second):
             for o in second:
                 o.what += ' [read with private helpers inlined]'
             return second
